@@ -1,0 +1,40 @@
+//go:build verif
+
+package timestamppb
+
+// Contracts for the Timestamp validity helpers (property C43). The documented
+// range is 0001-01-01T00:00:00Z .. 9999-12-31T23:59:59Z with nanos in
+// [0, 999999999]; the bounds in seconds are computed in specTimestampValid
+// from the calendar (proleptic Gregorian), not copied from the code.
+
+// days from 0001-01-01 to 1970-01-01: 1969 years, leap days = 1969/4 - 1969/100 + 1969/400
+const specDaysToUnixEpoch = 1969*365 + 1969/4 - 1969/100 + 1969/400
+
+// days from 0001-01-01 to 10000-01-01: 9999 years
+const specDaysTo10000 = 9999*365 + 9999/4 - 9999/100 + 9999/400
+
+const specMinSeconds = -specDaysToUnixEpoch * 86400
+const specMaxSeconds = (specDaysTo10000-specDaysToUnixEpoch)*86400 - 1
+
+func specTimestampValid(secs int64, nanos int32) bool {
+	return specMinSeconds <= secs && secs <= specMaxSeconds && 0 <= nanos && nanos <= 999999999
+}
+
+//@ props C43
+//@ mode int
+//@ inline GetSeconds GetNanos
+func contract_Timestamp_check(x *Timestamp) (code uint) {
+	ensures(imp(x == nil, code == invalidNil))
+	ensures(imp(x != nil, iff(code == 0, specTimestampValid(x.Seconds, x.Nanos))))
+	ensures(imp(x != nil && x.Seconds < specMinSeconds, code == invalidUnderflow))
+	ensures(imp(x != nil && x.Seconds > specMaxSeconds, code == invalidOverflow))
+	ensures(code <= invalidNanos)
+	return
+}
+
+//@ props C43
+//@ mode int
+func contract_Timestamp_IsValid(x *Timestamp) (ok bool) {
+	ensures(ok == (x != nil && specTimestampValid(x.Seconds, x.Nanos)))
+	return
+}
